@@ -383,6 +383,52 @@ def run(tier, replay=None):
                               pname, rc2, json.dumps(outs2)[:150], json.dumps(ref)[:150], tail),
                           "replay": {"program.mro": c.mro}})
         c.cleanup()
+    # an invocation that uses an environment variable (mrp expands them when it first compiles the
+    # invocation, and records the expanded text): killed half way and restarted with the same file
+    import mro as mro_
+    os.environ["VERIF_WORD"] = "word"
+    qe = mro_.program("envinv", [], [shapes.S_echo("E", "string", "s", "r"), shapes.S_echo("F", "string", "s", "r")],
+                      [mro_.pipeline("TOP", "string s", "string r",
+                                     [mro_.call("E", binds={"s": mro_.self_("s")}), mro_.call("F", binds={"s": mro_.ref("E", "r")})],
+                                     {"r": mro_.ref("F", "r")})], "TOP", {"s": "a word b"})
+    esem, _ = psrun.semantics([qe])
+    env_report = {}
+
+    def env_cycle(tag):
+        c_ = procdrv.Cycle(root, os.path.join(base, "env_" + tag), qe, esem["envinv"], "envinv#" + tag)
+        text = c_.mro.replace('"a word b"', '"a $VERIF_WORD b"')
+        if text == c_.mro:
+            raise vlib.Infra("the invocation of envinv does not contain the literal to replace")
+        open(os.path.join(c_.wd, "p.mro"), "w").write(text)
+        c_.mro = text
+        return c_
+    ce = env_cycle("ref")
+    rc0, _ = ce.run()
+    evs0 = ce.events()
+    w0 = mrp_writer(evs0)
+    n0 = sum(1 for e in evs0 if e.get("w") == w0)
+    ref_e = ce.top_outs()
+    ce.cleanup()
+    if rc0 != 0 or not n0:
+        raise vlib.Infra("the reference run of envinv failed (rc=%s)" % rc0)
+    for tag, k_ in (("half", n0 // 2), ("late", n0 - 3)):
+        ce = env_cycle(tag)
+        rc1, _ = ce.run(crash_at=k_)
+        ce.remove_lock()
+        rc2, _ = ce.run(timeout=60)
+        outs_e = ce.top_outs()
+        tail = ""
+        try:
+            tail = open(os.path.join(ce.wd, "mrp.out"), errors="replace").read()[-400:].replace("\n", " ")
+        except OSError:
+            pass
+        env_report[tag] = {"killed_after_effect": k_, "restart_exit": rc2, "outputs_equal": outs_e == ref_e}
+        if rc2 != 0 or outs_e != ref_e:
+            viols.append({"prop": "C05", "key": "C05:envinv:SIGKILL:restart-with-the-same-invocation",
+                          "what": "C05 program envinv, whose invocation holds `$VERIF_WORD`: killed after mrp's effect %d and restarted with the same invocation file and environment, mrp ended with status %s, outputs %s, reference %s; %s" % (
+                              k_, rc2, json.dumps(outs_e)[:120], json.dumps(ref_e)[:120], tail),
+                          "replay": {"program.mro": ce.mro}})
+        ce.cleanup()
     mine = [v for v in viols if v["prop"] == "C05"]
     others = sorted({v["prop"] for v in viols if v["prop"] != "C05"})
     if others:
@@ -395,7 +441,7 @@ def run(tier, replay=None):
         "states": mstates + tlc.distinct, "transitions": mtrans + tlc.generated,
         "traces_validated_against_impl": len(cases),
         "join_inputs_compared_with_uninterrupted_run": ncdefs,
-        "restarts_of_archived_pipestances": zip_report,
+        "restarts_of_archived_pipestances": zip_report, "invocation_with_environment_variable": env_report,
         "samples": [{"program": cases[0][0]["name"], "effect": cases[0][1], "signal": cases[0][2],
                      "exit_status": [str(results[0]["rc1"]), str(results[0]["rc2"])],
                      "events_before_crash": results[0]["n1"]}] if cases else [],
